@@ -242,7 +242,9 @@ class Bot:
         return True
 
     def _on_look_to(self) -> None:
-        if self._check_starting_row() and self._check_number_of_bells():
+        # Check the row generator that is about to be rung: if a new one has been queued, then that
+        # one will replace `self.row_generator` in `look_to_has_been_called`
+        if self._check_starting_row() and self._check_number_of_bells(self.next_row_generator):
             self.look_to_has_been_called(time.time())
 
     # This is public because it's used by `wheatley.main.server_main`.  `server_main` calls it
